@@ -17,30 +17,34 @@ CONSTANTS SpecsOf(_),      \* s |-> set of service values the environment may gi
           InitNodes,       \* n |-> node value
           ML,              \* memberlist enabled
           InitMembers,
-          MaxEnv           \* bound on environment steps
+          MaxEnv,          \* bound on environment steps
+          IGN,             \* the speaker runs with --ignore-exclude-lb
+          MaxFaults        \* failing session starts / failing Set calls that may be armed
 
 VARIABLES cl,      \* cluster: [svcs, nodes, layout, members, ml]
           mem,     \* the speaker's memory
           svcQ, nodeQ, cfgQ, reload, gate,
           since,   \* services handed to the handler since the configuration was last loaded
+          errS,    \* services whose latest handler call returned an error
+          nfault,
           nenv, act
 
-vars == <<cl, mem, svcQ, nodeQ, cfgQ, reload, gate, since, nenv, act>>
-View == <<cl, mem, svcQ, nodeQ, cfgQ, reload, gate, since, nenv>>
+vars == <<cl, mem, svcQ, nodeQ, cfgQ, reload, gate, since, errS, nfault, nenv, act>>
+View == <<cl, mem, svcQ, nodeQ, cfgQ, reload, gate, since, errS, nfault, nenv>>
 
 (* advisory copy of the hash order of the two node names per first address  *)
 (* (sha256(node # address)); the judge uses the order observed from the     *)
 (* implementation instead                                                   *)
 N1Wins == {0, 5, 6, 8, 12, 13, 15, 103, 105, 106, 108, 111, 114, 115}
 Rank == [a \in AllV4 \cup AllV6 |-> IF a \in N1Wins THEN "n1" ELSE "n2"]
-Env == [members |-> cl.members, ml |-> cl.ml, rank |-> Rank]
+Env == EnvOf(cl, Rank)
 
 Init ==
-  /\ cl = [svcs |-> InitSvcs, nodes |-> InitNodes, layout |-> InitLayout, members |-> InitMembers, ml |-> ML]
+  /\ cl = [svcs |-> InitSvcs, nodes |-> InitNodes, layout |-> InitLayout, members |-> InitMembers, ml |-> ML, ign |-> IGN]
   /\ mem = EmptyMem
   /\ svcQ = {s \in SpkSvcs : InitSvcs[s] # NULL}
   /\ nodeQ = SpkNodes
-  /\ cfgQ = TRUE /\ reload = FALSE /\ gate = FALSE /\ since = {}
+  /\ cfgQ = TRUE /\ reload = FALSE /\ gate = FALSE /\ since = {} /\ errS = {} /\ nfault = 0
   /\ nenv = 0
   /\ act = [op |-> "Init"]
   /\ PrintT(ToJson([init |-> cl]))
@@ -52,7 +56,7 @@ EnvSvc(s, v) ==
   /\ svcQ' = svcQ \cup {s}
   /\ nenv' = nenv + 1
   /\ act' = [op |-> "EnvSvc", s |-> s, v |-> v]
-  /\ UNCHANGED <<mem, nodeQ, cfgQ, reload, gate, since>>
+  /\ UNCHANGED <<mem, nodeQ, cfgQ, reload, gate, since, errS, nfault>>
 
 EnvNode(n, v) ==
   /\ nenv < MaxEnv /\ v # cl.nodes[n]
@@ -62,7 +66,7 @@ EnvNode(n, v) ==
   /\ cfgQ' = (cfgQ \/ v.label # cl.nodes[n].label \/ v.excl # cl.nodes[n].excl)
   /\ nenv' = nenv + 1
   /\ act' = [op |-> "EnvNode", n |-> n, v |-> v]
-  /\ UNCHANGED <<mem, svcQ, reload, gate, since>>
+  /\ UNCHANGED <<mem, svcQ, reload, gate, since, errS, nfault>>
 
 EnvLayout(L) ==
   /\ nenv < MaxEnv /\ L # cl.layout
@@ -70,7 +74,7 @@ EnvLayout(L) ==
   /\ cfgQ' = TRUE
   /\ nenv' = nenv + 1
   /\ act' = [op |-> "EnvLayout", layout |-> L]
-  /\ UNCHANGED <<mem, svcQ, nodeQ, reload, gate, since>>
+  /\ UNCHANGED <<mem, svcQ, nodeQ, reload, gate, since, errS, nfault>>
 
 (* a speaker joins / leaves the memberlist: the speaker list forces a sync  *)
 EnvMember(n) ==
@@ -79,25 +83,41 @@ EnvMember(n) ==
   /\ reload' = TRUE
   /\ nenv' = nenv + 1
   /\ act' = [op |-> "EnvMember", n |-> n]
-  /\ UNCHANGED <<mem, svcQ, nodeQ, cfgQ, gate, since>>
+  /\ UNCHANGED <<mem, svcQ, nodeQ, cfgQ, gate, since, errS, nfault>>
+
+(* ---- faults of the session manager (armed, they fire at the next call) -- *)
+ArmStart(p) ==
+  /\ nfault < MaxFaults /\ p \notin mem.fs
+  /\ mem' = [mem EXCEPT !.fs = @ \cup {p}]
+  /\ nfault' = nfault + 1
+  /\ act' = [op |-> "ArmStart", p |-> p]
+  /\ UNCHANGED <<cl, svcQ, nodeQ, cfgQ, reload, gate, since, errS, nenv>>
+ArmSet ==
+  /\ nfault < MaxFaults /\ ~mem.fset
+  /\ mem' = [mem EXCEPT !.fset = TRUE]
+  /\ nfault' = nfault + 1
+  /\ act' = [op |-> "ArmSet"]
+  /\ UNCHANGED <<cl, svcQ, nodeQ, cfgQ, reload, gate, since, errS, nenv>>
 
 (* ---- reconcilers -------------------------------------------------------- *)
 DeliverSvc(s) ==
   /\ s \in svcQ
-  /\ svcQ' = svcQ \ {s}
   /\ IF ~gate /\ cl.svcs[s] # NULL
-     THEN UNCHANGED <<mem, since>>                    \* filtered until the initial load is done
-     ELSE mem' = SetBalancer(mem, Env, s, cl.svcs[s]) /\ since' = since \cup {s}
+     THEN svcQ' = svcQ \ {s} /\ UNCHANGED <<mem, since, errS>>   \* filtered until the initial load is done
+     ELSE LET m2 == SetBalancer(mem, Env, s, cl.svcs[s]) IN
+          /\ mem' = m2 /\ since' = since \cup {s}
+          /\ svcQ' = (IF m2.err THEN svcQ ELSE svcQ \ {s})            \* an error is retried
+          /\ errS' = (IF m2.err THEN errS \cup {s} ELSE errS \ {s})
   /\ act' = [op |-> "DeliverSvc", s |-> s]
-  /\ UNCHANGED <<cl, nodeQ, cfgQ, reload, gate, nenv>>
+  /\ UNCHANGED <<cl, nodeQ, cfgQ, reload, gate, nfault, nenv>>
 
 DeliverNode(n) ==
   /\ n \in nodeQ
-  /\ nodeQ' = nodeQ \ {n}
   /\ LET r == SetNode(mem, n, cl.nodes[n])
-     IN mem' = r.m /\ reload' = (reload \/ r.reprocess)
+     IN /\ mem' = r.m /\ reload' = (reload \/ r.reprocess)
+        /\ nodeQ' = (IF r.m.err THEN nodeQ ELSE nodeQ \ {n})
   /\ act' = [op |-> "DeliverNode", n |-> n]
-  /\ UNCHANGED <<cl, svcQ, cfgQ, gate, since, nenv>>
+  /\ UNCHANGED <<cl, svcQ, cfgQ, gate, since, errS, nfault, nenv>>
 
 DeliverConfig ==
   /\ cfgQ
@@ -107,24 +127,32 @@ DeliverConfig ==
      ELSE IF CfgRefused(mem, c)
      THEN /\ mem' = [mem EXCEPT !.rcfg = NULL]                \* refused, retried
           /\ UNCHANGED <<cfgQ, reload, since>>
-     ELSE /\ mem' = [SetConfig(mem, c) EXCEPT !.rcfg = c]
-          /\ cfgQ' = FALSE /\ reload' = TRUE /\ since' = {}
+     ELSE LET m2 == SetConfig(mem, c) IN
+          /\ mem' = [m2 EXCEPT !.rcfg = c]
+          /\ cfgQ' = FALSE
+          /\ IF m2.err THEN UNCHANGED <<reload, since>>        \* handler failed: no retry, no re-sync
+                       ELSE reload' = TRUE /\ since' = {}
   /\ act' = [op |-> "DeliverConfig"]
-  /\ UNCHANGED <<cl, svcQ, nodeQ, gate, nenv>>
+  /\ UNCHANGED <<cl, svcQ, nodeQ, gate, errS, nfault, nenv>>
 
 ResyncPass ==
   /\ reload
-  /\ reload' = FALSE /\ gate' = TRUE
-  /\ mem' = Resync(mem, Env, cl.svcs)
-  /\ since' = since \cup {s \in SpkSvcs : cl.svcs[s] # NULL}
+  /\ LET m2 == Resync(mem, Env, cl.svcs)
+         ex == {s \in SpkSvcs : cl.svcs[s] # NULL}
+     IN /\ mem' = m2
+        /\ IF m2.err THEN reload' = TRUE /\ UNCHANGED gate /\ errS' = errS \cup ex
+                     ELSE reload' = FALSE /\ gate' = TRUE /\ errS' = errS \ ex
+        /\ since' = since \cup ex
   /\ act' = [op |-> "ResyncPass"]
-  /\ UNCHANGED <<cl, svcQ, nodeQ, cfgQ, nenv>>
+  /\ UNCHANGED <<cl, svcQ, nodeQ, cfgQ, nfault, nenv>>
 
 Next ==
   \/ \E s \in SpkSvcs : \E v \in SpecsOf(s) \cup {NULL} : EnvSvc(s, v)
   \/ \E n \in SpkNodes : \E v \in NodeVals(n) : EnvNode(n, v)
   \/ \E L \in LayoutSet : EnvLayout(L)
   \/ \E n \in SpkNodes : EnvMember(n)
+  \/ \E p \in PeerNames : ArmStart(p)
+  \/ ArmSet
   \/ \E s \in SpkSvcs : DeliverSvc(s)
   \/ \E n \in SpkNodes : DeliverNode(n)
   \/ DeliverConfig
@@ -134,8 +162,8 @@ Spec == Init /\ [][Next]_vars
 
 Quiescent == svcQ = {} /\ nodeQ = {} /\ ~cfgQ /\ ~reload /\ gate
 
-StateRec  == [cl |-> cl, mem |-> mem, svcQ |-> svcQ, nodeQ |-> nodeQ, cfgQ |-> cfgQ, reload |-> reload, gate |-> gate, since |-> since, q |-> Quiescent]
-StateRecP == [cl |-> cl', mem |-> mem', svcQ |-> svcQ', nodeQ |-> nodeQ', cfgQ |-> cfgQ', reload |-> reload', gate |-> gate', since |-> since', q |-> Quiescent']
+StateRec  == [cl |-> cl, mem |-> mem, svcQ |-> svcQ, nodeQ |-> nodeQ, cfgQ |-> cfgQ, reload |-> reload, gate |-> gate, since |-> since, errS |-> errS, nfault |-> nfault, q |-> Quiescent]
+StateRecP == [cl |-> cl', mem |-> mem', svcQ |-> svcQ', nodeQ |-> nodeQ', cfgQ |-> cfgQ', reload |-> reload', gate |-> gate', since |-> since', errS |-> errS', nfault |-> nfault', q |-> Quiescent']
 Emit == PrintT(ToJson([pre |-> StateRec, act |-> act', post |-> StateRecP, n |-> nenv]))
 
 ----------------------------------------------------------------------------
@@ -143,13 +171,14 @@ Emit == PrintT(ToJson([pre |-> StateRec, act |-> act', post |-> StateRecP, n |->
 (* JSON line per violating state (the exploration goes on): the verdicts    *)
 (* come from role C on the real code.                                       *)
 (* every announced service was handled under the configuration now loaded *)
-Settled == mem.annB \subseteq since
+Settled == mem.annB \subseteq since /\ errS = {}
 LoadedNow == Loaded(mem.cfg)
 ExpectedRoutes(p) == Routes(LoadedNow, mem.annB, mem.ips, p)
 SessionsExact ==
   (mem.cfg # NULL /\ Settled) =>
-     \A p \in SpkLayouts[mem.cfg.layout].peers :
-        /\ mem.sess[p.name].up = PeerShouldRun(p, mem.seen[Me])
+     \A p \in mem.peers :
+        /\ (mem.sess[p.name].up => PeerShouldRun(p, mem.seen[Me]))
+        /\ ((PeerShouldRun(p, mem.seen[Me]) /\ p.name \notin mem.sf) => mem.sess[p.name].up)
         /\ (mem.sess[p.name].up => mem.sess[p.name].rts = ExpectedRoutes(p.name))
 ReportedPeers ==
   (mem.cfg # NULL /\ Settled) =>
@@ -211,6 +240,17 @@ InitDualSvcs == [s \in SpkSvcs |-> IF s = "s1" THEN Sv("LB", <<5, 105>>, "Cluste
 InitConvSvcs == [s \in SpkSvcs |-> IF s = "s1" THEN Sv("LB", <<5>>, "Cluster", EpBoth) ELSE NULL]
 InitConvSvcs7 == [s \in SpkSvcs |-> IF s = "s1" THEN Sv("LB", <<7>>, "Cluster", EpBoth) ELSE NULL]
 InitConvSvcs2 == [s \in SpkSvcs |-> IF s = "s1" THEN Sv("LB", <<5>>, "Cluster", EpBoth) ELSE Sv("LB", <<6>>, "Cluster", EpBoth)]
+(* small catalogues for the targeted configurations                         *)
+SpecsBgpSmall(s) ==
+  IF s = "s1" THEN { Sv("LB", <<5>>, "Cluster", EpBoth), Sv("LB", <<5, 105>>, "Cluster", EpBoth), Sv("LB", <<9>>, "Cluster", EpBoth) }
+  ELSE { Sv("LB", <<6>>, "Cluster", EpBoth) }
+SpecsOne(s) == IF s = "s1" THEN { Sv("LB", <<5>>, "Cluster", EpBoth) } ELSE {}
+SpecsTwoAddr(s) == IF s = "s1" THEN { Sv("LB", <<5>>, "Cluster", EpBoth), Sv("LB", <<7>>, "Cluster", EpBoth) } ELSE {}
+NodesFlap(n) == IF n = "n1" THEN {NA, NB} ELSE {NA}
+(* --ignore-exclude-lb: the speaker's own node carries the exclude label    *)
+NXA == Nd("a", FALSE, TRUE)
+NodesIgn(n) == IF n = "n1" THEN {NXA, Nd("a", TRUE, TRUE), NA} ELSE {NA, Nd("a", TRUE, FALSE)}
+InitNodesIgn == [n \in SpkNodes |-> IF n = "n1" THEN NXA ELSE NA]
 BothMembers == {"n1", "n2"}
 NoMembers == {}
 =============================================================================
